@@ -1,4 +1,34 @@
-// engine K harnesses for module hook 'power_of_two' (included under cfg(kani) by /repo)
+// engine K — utils/power_of_two.rs (property C13: the power-of-two helper behind the capacity/alignment rule)
+use super::*;
+
+/// r is a power of two and r <= max(1,t) < 2r, for every usize
+#[kani::proof]
+fn c13_prev_power_of_two() {
+    let t: usize = kani::any();
+    kani::cover!(t == 0);
+    kani::cover!(t == usize::MAX);
+    kani::cover!(t.is_power_of_two() && t > 1);
+    let r = non_zero_prev_power_of_two(t);
+    assert!(r.is_power_of_two());
+    let m = if t == 0 { 1 } else { t };
+    assert!(r <= m && (m as u128) < 2 * (r as u128));
+}
+
+/// NonZeroU32PowerOfTwo::try_from accepts exactly the powers of two in 1..u32::MAX and round-trips
+#[kani::proof]
+fn c13_nonzero_pow2_try_from() {
+    let v: usize = kani::any();
+    kani::cover!(v == 1 << 31);
+    kani::cover!(v == 1 << 32);
+    match NonZeroU32PowerOfTwo::try_from(v) {
+        Ok(p) => {
+            assert!(v > 0 && v < u32::MAX as usize && v.is_power_of_two());
+            assert!(p.get() == v && usize::from(p) == v && u32::from(p) as usize == v);
+            assert!(p.to_non_zero_usize().get() == v);
+        }
+        Err(_) => assert!(!(v > 0 && v < u32::MAX as usize && v.is_power_of_two())),
+    }
+}
 
 #[cfg(test)]
 include!(concat!(env!("IPA_VERIF_DIR"), "/.build/playback/power_of_two.rs"));
